@@ -18,6 +18,12 @@
 (* with nothing held it may already take the idle-quit decision);          *)
 (* (b) the idle period after which the flusher retires is only exercised   *)
 (* as "no virtual time passed" versus "11 intervals passed".               *)
+(*                                                                         *)
+(* Sizes (chunk) is a dimension of its own and includes 0: what is held is *)
+(* the task list, not a byte count - a batch of size-0 tasks never reaches *)
+(* the byte threshold, and tick / Flush / Wait execute it like any other   *)
+(* (held # <<>>, whatever Bytes(held) is).  checks/c16.py instantiates it  *)
+(* with 0 and with Max - 1, Max, Max + 1.                                  *)
 (***************************************************************************)
 EXTENDS Integers, Sequences, TLC, Json
 
